@@ -262,7 +262,9 @@ func Apply(ctx context.Context, rc *regclient.RegClient, rSrc ref.Ref, opts ...O
 					dl.mod = deleted
 					return dl, nil
 				}
-				if changed {
+				// an added or replaced layer is pushed from rdr below, which has been consumed by the tar reader,
+				// so the repackaged file is needed even when no file in it changed
+				if changed || dl.mod == added || dl.mod == replaced {
 					// close to flush remaining content
 					err = tw.Close()
 					if err != nil {
